@@ -36,6 +36,9 @@ def run(ctx, prop):
         # producers - the inductive invariant of proofs/tasklane checked by the TLA+ proof system (about 2 minutes)
         import p_p01
         ctx.tlaps("tasklane", p_p01.TASKLANE_PROOF, timeout=2400, tag="TaskLaneProof (unbounded safety of the protocol model)")
+    if prop == "C08":
+        # unbounded: a queue goroutine parked offering and a worker parked listening never coexist while the context is live
+        ctx.tlaps("tasklane", "TaskLaneShareProof", timeout=900, tag="TaskLaneShareProof (NoIdleWhileWaiting for any N, Q, tasks, producers)")
     # 2. binding: traces of the real TaskLane, judged with the statement layer
     race = prop == "C14"
     hb = ctx.build("tasklane", race=race)
